@@ -78,7 +78,7 @@ pub struct NarrowCase {
 }
 
 pub fn narrow_strategy() -> impl Strategy<Value = NarrowCase> {
-    (tygen::ty(false), prop::collection::vec(prop::collection::vec(any::<u8>(), 4), 1..3), 0u8..4, prop::collection::vec(any::<u8>(), 6)).prop_map(|(t, s_mut, form, pick)| NarrowCase { t, s_mut, form, pick })
+    (tygen::ty(false), prop::collection::vec(prop::collection::vec(any::<u8>(), 4), 1..3), 0u8..6, prop::collection::vec(any::<u8>(), 6)).prop_map(|(t, s_mut, form, pick)| NarrowCase { t, s_mut, form, pick })
 }
 
 /// a partial type used as the type of a tuple/partial field
@@ -90,34 +90,49 @@ fn partial_nested(t: &Ty, under: bool) -> bool {
     }
 }
 
-pub fn narrow_feats(c: &NarrowCase) -> Vec<&'static str> {
-    let mut s_ty = c.t.clone();
-    for d in &c.s_mut {
-        s_ty = tygen::mutate(&s_ty, d);
+/// ('t, 's) of a case. forms 0-4: 's is 't after the case's mutations. form 5: 's is 't with one
+/// tuple variant split into two that share their other fields, and 't is a widening of 's (a
+/// variant added at 1-2 places), so that some values of 't lie just outside 's.
+pub fn narrow_types(c: &NarrowCase) -> (Ty, Ty) {
+    let d = |i: usize| c.pick.get(i).copied().unwrap_or(0);
+    if c.form == 5 {
+        let s_ty = tygen::mutate(&c.t, &[d(1), 12, d(2), d(3)]);
+        let mut t_ty = s_ty.clone();
+        for m in &c.s_mut {
+            t_ty = tygen::mutate(&t_ty, &[m[0], 0, m[2], m[3]]);
+        }
+        (t_ty, s_ty)
+    } else {
+        let mut s_ty = c.t.clone();
+        for m in &c.s_mut {
+            s_ty = tygen::mutate(&s_ty, m);
+        }
+        (c.t.clone(), s_ty)
     }
+}
+
+pub fn narrow_feats(c: &NarrowCase) -> Vec<&'static str> {
+    let (t_ty, s_ty) = narrow_types(c);
     let mut f = vec![];
-    if c.t.has_back() || s_ty.has_back() {
+    if t_ty.has_back() || s_ty.has_back() {
         f.push("recursive-type");
     }
-    if contains_nil(&c.t) {
+    if contains_nil(&t_ty) {
         f.push("nil-in-scrutinee-type");
     }
-    if c.t.has_partial() || s_ty.has_partial() {
+    if t_ty.has_partial() || s_ty.has_partial() {
         f.push("partial-type");
     }
-    if c.form % 4 == 3 {
+    if c.form == 3 {
         f.push("ascription-nested-in-tuple-pattern");
     }
     f
 }
 
 pub fn narrow_source(c: &NarrowCase) -> Option<(String, bool, bool)> {
-    let mut s_ty = c.t.clone();
-    for d in &c.s_mut {
-        s_ty = tygen::mutate(&s_ty, d);
-    }
+    let (t_ty, s_ty) = narrow_types(c);
     let mut p = Program::new();
-    let tid = tygen::register(&c.t, &mut p);
+    let tid = tygen::register(&t_ty, &mut p);
     let all: Vec<V> = tysem::enumerate(tid, &[], 3, &p).into_iter().filter(|v| v.first_order() && !has_empty_bin(v)).collect();
     if all.is_empty() {
         return None;
@@ -129,16 +144,23 @@ pub fn narrow_source(c: &NarrowCase) -> Option<(String, bool, bool)> {
             values.push(v);
         }
     }
-    let body = match c.form % 4 {
+    if c.form >= 4 {
+        // call acceptance: one value of 't is passed to an identity function over 's; if the
+        // compiler accepts the call, the result (the value itself) must be a value of 's
+        let v = &values[0];
+        let src = format!("'t = {},\n's = {},\nf = #'s {{ $ }},\n{} f", tygen::render(&t_ty), tygen::render(&s_ty), v.source());
+        return Some((src, t_ty.has_back() || s_ty.has_back(), contains_nil(&t_ty)));
+    }
+    let body = match c.form {
         0 => "| =('s)y => Y[y] | =x => N[x]",
         1 => "| ='s => Y[$] | =x => N[x]",
         2 => "| =('s)y => Y[y] | N[$]",
         _ => "| =x [x] =[('s)y] => Y[y] | =x => N[x]",
     };
     let calls: Vec<String> = values.iter().map(|v| format!("{} g", v.source())).collect();
-    let src = format!("'t = {},\n's = {},\ng = #'t {{ {body} }},\n[{}]", tygen::render(&c.t), tygen::render(&s_ty), calls.join(", "));
-    let recursive = c.t.has_back() || s_ty.has_back();
-    let has_nil = contains_nil(&c.t);
+    let src = format!("'t = {},\n's = {},\ng = #'t {{ {body} }},\n[{}]", tygen::render(&t_ty), tygen::render(&s_ty), calls.join(", "));
+    let recursive = t_ty.has_back() || s_ty.has_back();
+    let has_nil = contains_nil(&t_ty);
     Some((src, recursive, has_nil))
 }
 
